@@ -55,6 +55,10 @@ Dim2Only == {"NavierStokesVorticity", "KolmogorovFlowVorticity", "GeneralVortici
 Dim3Only == {"NavierStokesVelocity", "KolmogorovFlowVelocity", "ProjectedConvection3d", "ProjectedConvection3dKolmogorov"}
 Dim1Only == {"RandomSineWaves1d"}
 ScalingModes == {"norm_compensation", "reconstruction", "coef_extraction"}
+\* shapes a user-defined stepper's _build_linear_operator may return, as mutations of (C, N, ..., N, N div 2 + 1): the constructor accepts exactly
+\* the per-channel operator and the one broadcast over channels (leading axis 1) - never a broadcast over wavenumbers
+OperatorMutations == {"per_channel", "shared", "one_channel_too_many", "physical_last_axis", "no_channel_axis", "extra_axis",
+                      "singleton_axis_1", "singleton_axis_2", "singleton_axis_3", "singleton_last_axis", "all_singleton"}
 Rows ==
        { <<"class_dim", c, d>> : c \in Dim2Only \cup Dim3Only \cup Dim1Only, d \in 1..3 }
   \cup { <<"laplace_order", o>> : o \in (-2)..8 }
@@ -71,6 +75,8 @@ Rows ==
   \cup { <<"offset_flags", off, so, mo>> : off \in BOOLEAN, so \in BOOLEAN, mo \in BOOLEAN }
   \cup { <<"sine_lengths", a, b, c>> : a \in 1..2, b \in 1..2, c \in 1..2 }
   \cup { <<"windows", T, l>> : T \in 1..4, l \in 1..5 }
+  \cup { <<"poisson_order", d, o>> : d \in 1..3, o \in 1..8 }
+  \cup { <<"operator_shape", d, c, m>> : d \in 1..3, c \in 1..3, m \in OperatorMutations }
 
 Allowed(r) ==
     CASE r[1] = "class_dim" -> IF r[2] \in Dim2Only THEN r[3] = 2 ELSE IF r[2] \in Dim3Only THEN r[3] = 3 ELSE r[3] = 1
@@ -87,6 +93,8 @@ Allowed(r) ==
       [] r[1] = "offset_flags" -> ~(r[2] /\ r[3]) /\ ~(r[3] /\ r[4])
       [] r[1] = "sine_lengths" -> r[2] = r[3] /\ r[3] = r[4]
       [] r[1] = "windows" -> r[3] <= r[2]
+      [] r[1] = "poisson_order" -> r[3] % 2 = 0
+      [] r[1] = "operator_shape" -> r[4] \in {"per_channel", "shared"}
 \* the table is total and two-valued; exported through one ASSUME so that TLC evaluates it and the harness reads it
 Table == [r \in Rows |-> IF Allowed(r) THEN "ok" ELSE "ValueError"]
 TableTotal == \A r \in Rows : Table[r] \in {"ok", "ValueError"}
